@@ -12,6 +12,22 @@ fn slice_token_text<'t>(text: &'t str, offset: usize, len: u32) -> (r: &'t str)
     ensures blen(r) == len as usize
 { unimplemented!() }
 
+/// the `next` of the iterator `tokenize` returns: the body of its `from_fn` closure, copied from /repo on this run (D37), against what
+/// the `for` loop of LexedStr::new relies on -- one token per call, none exactly at the end of the input, never an Eof token
+fn oq3_tokenize_next(cursor: &mut Cursor) -> (r: Option<Token>)
+    requires fits(*old(cursor)), old(cursor).tok().len() == 0,
+    ensures
+        final(cursor).tok().len() == 0, fits(*final(cursor)),
+        final(cursor).rest() == old(cursor).rest().skip(eaten(*old(cursor), *final(cursor))),
+        (r is None) == (old(cursor).rest().len() == 0),                                                             //@C14,C01:stream-ends-at-end-of-input
+        r is None ==> eaten(*old(cursor), *final(cursor)) == 0,
+        r is Some ==> !(r->Some_0.kind is Eof) && eaten(*old(cursor), *final(cursor)) >= 1
+            && r->Some_0.len == utf8_len(old(cursor).rest().take(eaten(*old(cursor), *final(cursor)))) && r->Some_0.len >= 1,      //@C14,C02:token-length-is-what-was-consumed
+{
+    broadcast use lex_lemmas;
+@@TOKENIZE_CLOSURE_BODY@@
+}
+
 fn c14_chain_table_from_tokens<'t>(text: &'t str, cursor: &mut Cursor) -> (r: LexedStr<'t>)
     requires old(cursor).tok().len() == 0, fits(*old(cursor)),
     ensures
@@ -54,11 +70,14 @@ fn c14_chain_table_from_tokens<'t>(text: &'t str, cursor: &mut Cursor) -> (r: Le
         let ghost c0 = *cursor;
         let ghost off0 = conv.offset;
         let ghost starts0 = conv.res.start@;
-        let token = cursor.advance_token();
-        if matches!(token.kind, TokenKind::Eof) {
-            proof { assert(r0.take(k) =~= r0); }
-            break;
-        }
+        let oq3_next: Option<Token> = oq3_tokenize_next(cursor);      // the `next` of tokenize's iterator; `None` ends the `for` loop of LexedStr::new
+        let token = match oq3_next {
+            Some(oq3_t) => oq3_t,
+            None => {
+                proof { assert(r0.take(k) =~= r0); }
+                break;
+            }
+        };
         let ghost n = eaten(c0, *cursor);
         proof {
             assert(r0.take(k) + r0.skip(k).take(n) =~= r0.take(k + n));
